@@ -1,5 +1,77 @@
-"""thorough tier: replay the seeded changes / positive controls that belong to a property"""
+"""thorough tier: positive controls.  The seeded changes (independent agents) and the reverts of the fix
+commits that belong to a property are replayed on scratch copies of /repo's *current* tree; each must make
+the property's check report a violation.  A control whose patch no longer applies (the tree under test
+differs) is skipped and reported.  A control that applies but does not fire means the checker is broken:
+that is reported as a violation of kind checker-broken (exit 1), never as a pass."""
+import glob, json, os, shutil, subprocess, sys, tempfile
+from .engine import VERIF, REPO
+
+
+def controls_for(prop):
+    out = []
+    for d in sorted(glob.glob(os.path.join(VERIF, "seeded", "*")) + glob.glob(os.path.join(VERIF, "selftest", "*"))):
+        mf = os.path.join(d, "meta.json")
+        if not os.path.exists(mf) or not os.path.exists(os.path.join(d, "patch.diff")):
+            continue
+        m = json.load(open(mf))
+        if prop in m.get("detected_by", []):
+            out.append((d, m))
+    return out
+
+
 def run_for(prop):
+    ctrls = controls_for(prop)
+    fired = skipped = 0
+    broken = []
+    for d, m in ctrls:
+        tmp = tempfile.mkdtemp(prefix="hvctl-")
+        try:
+            dst = os.path.join(tmp, "repo")
+            os.makedirs(dst)
+            for f in ("src", "Cargo.toml", "Cargo.lock"):
+                s = os.path.join(REPO, f)
+                if os.path.isdir(s):
+                    shutil.copytree(s, os.path.join(dst, f))
+                elif os.path.exists(s):
+                    shutil.copy(s, dst)
+            p = subprocess.run(["patch", "-p1", "-s", "-f", "-d", dst, "-i", os.path.join(d, "patch.diff")], capture_output=True, text=True)
+            if p.returncode != 0:
+                skipped += 1
+                print("   control %-10s skipped: patch does not apply to the tree under test" % os.path.basename(d))
+                continue
+            env = dict(os.environ, HV_REPO=dst, HV_EVIDENCE_DIR=os.path.join(tmp, "ev"), VERIF_TIER="quick")
+            q = subprocess.run([os.path.join(VERIF, "hv"), "check", prop, "--tier", "quick"], env=env, capture_output=True, text=True)
+            if q.returncode == 1 and "VIOLATION property=%s" % prop in q.stdout:
+                fired += 1
+                first = [l for l in q.stdout.splitlines() if l.startswith("  - [")]
+                print("   control %-10s fired: %s" % (os.path.basename(d), (first[0][:150] if first else "")))
+            else:
+                broken.append(os.path.basename(d))
+                print("   control %-10s DID NOT FIRE (rc=%d)" % (os.path.basename(d), q.returncode))
+        finally:
+            shutil.rmtree(tmp, ignore_errors=True)
+    print("== %s thorough: %d positive controls fired, %d skipped, %d silent" % (prop, fired, skipped, len(broken)))
+    # record in the evidence file
+    evf = os.path.join(os.environ.get("HV_EVIDENCE_DIR") or os.path.join(VERIF, "evidence"), prop + ".json")
+    try:
+        ev = json.load(open(evf))
+        ev["coverage"]["positive_controls"] = {"fired": fired, "skipped": skipped, "silent": broken, "total": len(ctrls)}
+        if broken:
+            ev["violations"] = ev.get("violations", 0) + len(broken)
+        json.dump(ev, open(evf, "w"), ensure_ascii=False, indent=1)
+    except Exception:
+        pass
+    if broken:
+        rp = os.path.join(VERIF, "evidence", "violations", "%s.controls.json" % prop)
+        os.makedirs(os.path.dirname(rp), exist_ok=True)
+        json.dump({"property": prop, "kind": "checker-broken", "silent_controls": broken}, open(rp, "w"))
+        print("VIOLATION property=%s replay=%s" % (prop, rp))
+        return 1
     return 0
+
+
 def main(argv):
-    return 0
+    rc = 0
+    for p in argv:
+        rc |= run_for(p)
+    return rc
